@@ -45,7 +45,13 @@ impl Property for C09 {
             });
         let circle = (p2(100.0), logu(-1.0, 2.0), unif(-PI, PI), unif(PI / 3.0, 2.0 * PI), 5usize..200, prop::collection::vec(unif(0.0, 1.0), 200), (unif(-0.35, 0.35), unif(-0.35, 0.35), unif(0.5, 2.0)), prop::option::of(unif(2.0, 4.0)), prop::option::of(prop::collection::vec(unif(-1.0, 1.0), 200)))
             .prop_map(|(c, r, a0, extent, n, jitter, guess, gaussian, noise)| Case::Circle { c, r, a0, extent, n, jitter: jitter[..n].to_vec(), guess, gaussian, noise: noise.map(|v| v[..n].to_vec()) });
-        let ransac = (p2(50.0), logu(-0.5, 1.5), 15usize..60, prop::collection::vec(unif(0.0, 2.0 * PI), 60), prop::collection::vec(p2(2.0), 0..60), 0u8..4).prop_map(|(c, r, n_in, in_angles, outliers, limits)| Case::Ransac { c, r, n_in, in_angles, outliers, limits });
+        let ransac = (p2(50.0), logu(-0.5, 1.5), 15usize..60, prop::collection::vec(unif(0.0, 2.0 * PI), 60), prop_oneof![
+            3 => prop::collection::vec(p2(2.0), 0..60),
+            // structured contamination: the other points lie on a second circle (much larger or much smaller, i.e. outside
+            // the radius limits when limits are given) which may have more points on it than the generating one
+            1 => (prop::sample::select(vec![0.2, 0.3, 3.0, 5.0, 8.0]), (unif(-1.0, 1.0), unif(-1.0, 1.0)), prop::collection::vec(unif(0.0, 2.0 * PI), 10..120))
+                .prop_map(|(rho, o, angs)| angs.iter().map(|t| [o.0 + rho * t.cos(), o.1 + rho * t.sin()]).collect::<Vec<P2>>()),
+        ], 0u8..4).prop_map(|(c, r, n_in, in_angles, outliers, limits)| Case::Ransac { c, r, n_in, in_angles, outliers, limits });
         prop_oneof![
             8 => poly,
             1 => (coord(10.0), coord(10.0), coord(10.0), coord(10.0)).prop_map(|(x0, y0, x1, y1)| Case::Line2Pts { x0, y0, x1, y1 }),
@@ -276,7 +282,8 @@ fn ransac(c: &P2, r: f64, n_in: usize, in_angles: &[f64], outliers: &[P2], limit
         }
     }
     let mut pts: Vec<Point2> = in_angles[..n_in].iter().map(|t| c0 + engeom::Vector2::new(t.cos(), t.sin()) * r).collect();
-    let n_out = outliers.len().min(n_in);
+    let n_out = outliers.len().min(2 * n_in);
+    cx.label_if(n_out > n_in, "ransac_minority_inliers");
     for o in &outliers[..n_out] {
         pts.push(c0 + engeom::Vector2::new(o[0], o[1]) * r);
     }
